@@ -48,7 +48,8 @@ def run(ctx):
         vlib.write_ndjson(part, rows[b:b + B])
         vlib.validate_cases(ctx, "C20Trace", "C20Trace.cfg", part, label="parses%d" % (b // B), timeout=3300, **kwp)
     # generated parsers that trim trailing whitespace (fixWhitespace) with injected comments: rules ending in nullable symbols,
-    # with and without a trailing state marker
+    # with and without a trailing state marker; and recovering variants (an initializer that may be a bare or wrapped 'error') on texts with
+    # dropped, doubled and invalid tokens, so that recovery pushes empty and non-empty error symbols next to comments
     gout = ctx.path("genfw.ndjson")
     ctx.vhrun(["c20-gen", ctx.path("fwmod"), gout, "400" if thorough else "60"], timeout=3000)
     vlib.run(["rm", "-rf", ctx.path("fwmod")], check=False)
